@@ -226,3 +226,95 @@ func (r *GoRunner) Run(src string, entries []Entry) (*GoResult, error) {
 	}
 	return res, nil
 }
+
+// ManyResult is the outcome multiset of repeated runs of entry0.
+type ManyResult struct {
+	Outcomes map[string]int // canonical result -> number of runs
+	Panics   map[string]int
+	Race     string // race detector report ("" if none)
+	Runs     int
+}
+
+// RunMany builds src (plain and, if raceRuns > 0, with -race) and runs it
+// repeatedly under different GOMAXPROCS values, collecting the results of the
+// single entry function.
+func (r *GoRunner) RunMany(src string, entry Entry, procs []int, repeat int, raceRuns int) (*ManyResult, error) {
+	os.MkdirAll(filepath.Join(r.Dir, "zzcanon"), 0o755)
+	for name, content := range map[string]string{"prog.go": src, "zzcanon/canon.go": canonSrc, "zz_main.go": shim([]Entry{entry})} {
+		if err := os.WriteFile(filepath.Join(r.Dir, name), []byte(content), 0o644); err != nil {
+			return nil, err
+		}
+	}
+	env := append(os.Environ(), "GOFLAGS=-mod=mod", "GOPROXY=off", "GOSUMDB=off", "GOTOOLCHAIN=local")
+	build := func(out string, race bool) error {
+		args := []string{"build", "-o", out}
+		if race {
+			args = append(args, "-race")
+		}
+		args = append(args, ".")
+		ctx, cancel := context.WithTimeout(context.Background(), 180*time.Second)
+		defer cancel()
+		cmd := exec.CommandContext(ctx, "go", args...)
+		cmd.Dir = r.Dir
+		cmd.Env = env
+		if b, err := cmd.CombinedOutput(); err != nil {
+			return &BuildError{string(b)}
+		}
+		return nil
+	}
+	res := &ManyResult{Outcomes: map[string]int{}, Panics: map[string]int{}}
+	runOnce := func(bin string, p int, race bool) error {
+		ctx, cancel := context.WithTimeout(context.Background(), 30*time.Second)
+		defer cancel()
+		cmd := exec.CommandContext(ctx, bin)
+		cmd.Env = append(os.Environ(), fmt.Sprintf("GOMAXPROCS=%d", p), "GORACE=halt_on_error=1 exitcode=66")
+		var so, se bytes.Buffer
+		cmd.Stdout, cmd.Stderr = &so, &se
+		err := cmd.Run()
+		if ctx.Err() != nil {
+			return fmt.Errorf("generated concurrent program timed out (deadlock or livelock in Go)")
+		}
+		if race && strings.Contains(se.String(), "DATA RACE") {
+			res.Race = se.String()
+			return nil
+		}
+		res.Runs++
+		for _, line := range strings.Split(so.String(), "\n") {
+			if i := strings.Index(line, " = "); i > 0 && strings.HasPrefix(line, entry.Name) {
+				res.Outcomes[line[i+3:]]++
+			} else if i := strings.Index(line, " PANIC "); i > 0 {
+				res.Panics[line[i+7:]]++
+			}
+		}
+		if err != nil && len(res.Outcomes)+len(res.Panics) == 0 {
+			return fmt.Errorf("generated program died: %v: %s", err, se.String())
+		}
+		return nil
+	}
+	bin := filepath.Join(r.Dir, "prog.bin")
+	if err := build(bin, false); err != nil {
+		return nil, err
+	}
+	for _, p := range procs {
+		for k := 0; k < repeat; k++ {
+			if err := runOnce(bin, p, false); err != nil {
+				return res, err
+			}
+		}
+	}
+	if raceRuns > 0 {
+		rbin := filepath.Join(r.Dir, "prog.race.bin")
+		if err := build(rbin, true); err != nil {
+			return nil, err
+		}
+		for k := 0; k < raceRuns; k++ {
+			if err := runOnce(rbin, []int{2, 4, 16}[k%3], true); err != nil {
+				return res, err
+			}
+			if res.Race != "" {
+				break
+			}
+		}
+	}
+	return res, nil
+}
